@@ -277,6 +277,9 @@ def fast_records_auto_taken(ctx, rule='A5f'):
 
 
 def check(ctx):
+    # a design-variable node's variable is active exactly when the node exists: which value goes to which node
+    from . import c16 as _c16
+    _c16.decode_assignment(ctx)
     vectors.manager_contract(ctx)
     vectors.eager_returns_stored_vector(ctx)
     vectors.decode_no_raw_echo(ctx)
